@@ -30,7 +30,9 @@ type scriptedPublic struct {
 }
 
 type pubAnswer struct {
-	delay time.Duration
+	after chan struct{} // the answer is held back until this is closed (the other peer has answered) and the process is quiescent
+	done  chan struct{} // closed when this answer has been given
+	once  *sync.Once
 	b     *common.Beacon // nil = error
 }
 
@@ -41,10 +43,18 @@ func (s *scriptedPublic) PublicRand(ctx context.Context, p net.Peer, in *proto.P
 	if !ok {
 		return nil, errors.New("no such round")
 	}
-	select {
-	case <-time.After(a.delay):
-	case <-ctx.Done():
-		return nil, ctx.Err()
+	// arrival order by construction, not by delay: the second answer leaves only after the first one
+	// has been given and taken in by the caller (nothing running or runnable any more)
+	if a.after != nil {
+		select {
+		case <-a.after:
+			emit.Quiesce(20 * time.Second)
+		case <-ctx.Done():
+			return nil, ctx.Err()
+		}
+	}
+	if a.done != nil {
+		defer a.once.Do(func() { close(a.done) })
 	}
 	if a.b == nil {
 		return nil, errors.New("peer error")
@@ -145,13 +155,15 @@ func RunBootstrap(out string, seed int64, tier string) error {
 		order := rng.Perm(2)
 		var ansT, ansL []*common.Beacon
 		var kdesc []string
+		firstT, firstL := make(chan struct{}), make(chan struct{})
 		for slot, pi := range order {
 			kt, kl := kinds[rng.Intn(len(kinds))], kinds[rng.Intn(len(kinds))]
 			bt, bl := mk(kt, target), mk(kl, 0)
-			sp.answers[peers[pi]] = map[uint64]pubAnswer{
-				target: {delay: time.Duration(slot*25) * time.Millisecond, b: bt},
-				0:      {delay: time.Duration(slot*25) * time.Millisecond, b: bl},
+			at, al := pubAnswer{done: firstT, once: &sync.Once{}, b: bt}, pubAnswer{done: firstL, once: &sync.Once{}, b: bl}
+			if slot == 1 {
+				at, al = pubAnswer{after: firstT, b: bt}, pubAnswer{after: firstL, b: bl}
 			}
+			sp.answers[peers[pi]] = map[uint64]pubAnswer{target: at, 0: al}
 			ansT, ansL = append(ansT, bt), append(ansL, bl)
 			kdesc = append(kdesc, kt+"/"+kl)
 		}
